@@ -124,6 +124,7 @@ func (iri *ParsedIRI) ResolveReference(ref *ParsedIRI) *ParsedIRI {
 	}
 	if ref.u.Path == "" && !ref.u.ForceQuery && ref.u.RawQuery == "" {
 		url.RawQuery = u.RawQuery
+		url.ForceQuery = u.ForceQuery
 		if ref.u.Fragment == "" {
 			url.Fragment = u.Fragment
 			url.RawFragment = u.RawFragment
